@@ -67,12 +67,18 @@ def distinct_keys(keyfn, r, n, cu):
 def make_input(r, keyfn, cu):
     keys = distinct_keys(keyfn, r, r.randint(3, 7), cu)
     g = gen.Gen(r.randrange(10 ** 9), keys=keys, datetime=r.random() < 0.2)
-    return g.samples(depth=3), g.datetime
+    s = g.samples(depth=3)
+    if len(keys) >= 3 and r.random() < 0.15:
+        # look-alike leaf siblings: two objects with the same field names and types under one parent (they stay separate
+        # models under a count-only merge policy, and the nested layout has to place both)
+        leaf = {k: 1.5 for k in keys[:3]}
+        s[0] = dict(s[0], **{keys[-1]: dict(leaf), keys[-2]: dict(leaf)})
+    return s, g.datetime
 
 
 def options(r, datetime):
     return dict(fw=r.choice(pipeline.FRAMEWORKS), structure=r.choice(["flat", "flat", "nested"]),
-                cmp=r.choice([None, None, [("exact",)], [("number", 2)]]), rn=RN6 if datetime else RN3,
+                cmp=r.choice([None, None, [("exact",)], [("number", 2)], [("number", 10)]]), rn=RN6 if datetime else RN3,
                 max_literals=r.choice([10, 10, 0, 2, 16]), converters=r.random() < 0.35, meta=r.random() < 0.5,
                 unidecode=None, preamble=None)
 
